@@ -22,7 +22,7 @@ RULE = (
     "written as quoted upper-case}; the canonical spelling is all lower-case. Non-trivial = the respelled text differs from the "
     "canonical text and the template has at least one unquoted identifier; distinct = distinct (template, respelled text)."
 )
-REQUIRED = ["cmp_outcome", "cmp_snapshot", "cmp_session", "cmp_absolute_names", "cmp_dict_keys", "cmp_status_name"]
+REQUIRED = ["cmp_outcome", "cmp_snapshot", "cmp_session", "cmp_absolute_names", "cmp_dict_keys", "cmp_status_name", "cmp_api_names"]
 ASSUMPTIONS = [
     "JSON path keys, string literals and quoted identifiers are never respelled (they are case-sensitive data)",
     "rows are compared as multisets unless the template has a total ORDER BY",
@@ -48,6 +48,12 @@ EXPECT_TABLE = {"ddl_quoted_case_pair": ["DB1", "S1", "METRICS"], "ddl_create_ta
 def gen_cases(tier: str, seed: int):
     r = random.Random(f"{seed}:C02")
     k = 3 if tier == "quick" else 37
+    # names handed over as API arguments (write_pandas' table / schema / database) are unquoted identifiers too
+    for spelling in ("lower", "Capital", "aLtErNaTiNg"):
+        for existing in (True, False):
+            for auto in (True, False):
+                for qualify in (0, 1, 2):
+                    yield {"kind": "write_pandas_names", "spelling": spelling, "existing": existing, "auto": auto, "qualify": qualify}
     for z in zoo.ZOO:
         names = ["upper", "alternating"] + [f"random{j}" for j in range(k)] + ["quoted-upper"]
         for nm in names:
@@ -128,7 +134,61 @@ def _norm(res: dict, ordered: bool) -> dict:
     return r
 
 
+def _write_pandas_names(case: dict, env: core.Env) -> None:
+    import pandas as pd
+
+    import fakesnow.fakes as fakes
+
+    def sp(name: str, how: str) -> str:
+        if how == "UPPER":
+            return name
+        if how == "lower":
+            return name.lower()
+        if how == "Capital":
+            return name.capitalize()
+        return "".join(ch.lower() if i % 2 == 0 else ch.upper() for i, ch in enumerate(name))
+
+    results = []
+    insts = []
+    try:
+        for how in ("UPPER", case["spelling"]):
+            fs = core.new_fs()
+            insts.append(fs)
+            conn = fs.connect("db1", "s1")
+            cur = conn.cursor()
+            cur.execute("CREATE SCHEMA S2")
+            if case["existing"]:
+                cur.execute("CREATE TABLE DB1.S2.CUSTOMERS (ID INT, NAME VARCHAR)" if case["qualify"] else "CREATE TABLE CUSTOMERS (ID INT, NAME VARCHAR)")
+                cur.execute(f"INSERT INTO {'DB1.S2.' if case['qualify'] else ''}CUSTOMERS VALUES (1, 'first')")
+            kw: dict = {"auto_create_table": True} if case["auto"] else {}
+            if case["qualify"] >= 1:
+                kw["schema"] = sp("S2", how)
+            if case["qualify"] == 2:
+                kw["database"] = sp("DB1", how)
+            df = pd.DataFrame({"ID": [2, 3], "NAME": ["second", "third"]})
+            try:
+                res = fakes.write_pandas(conn, df, sp("CUSTOMERS", how), **kw)
+                out: Any = ("ok", res[0], res[2])
+            except Exception as e:  # noqa: BLE001
+                ei = core.exc_info(e)
+                out = ("raised", ei["cls"], ei.get("errno"))
+            results.append((out, core.snapshot(fs)))
+        env.count("cmp_api_names")
+        (oa, sa), (ob, sb) = results
+        cfg = f"{'existing' if case['existing'] else 'missing'}-table/{'auto-create' if case['auto'] else 'no-auto-create'}/qualify{case['qualify']}"
+        if oa != ob:
+            env.witness(f"C02/write_pandas-names/outcome-differs/{cfg}", f"names in upper case -> {oa} but spelled {case['spelling']} -> {ob}")
+        elif sa != sb:
+            env.witness(f"C02/write_pandas-names/state-differs/{cfg}", f"spelled {case['spelling']}: {core.snap_diff(sa, sb)}"[:700])
+        env.nontrivial(("write_pandas_names", case["spelling"], cfg))
+    finally:
+        for fs in insts:
+            fs.duck_conn.close()
+
+
 def run_case(case: dict, env: core.Env) -> None:
+    if case.get("kind") == "write_pandas_names":
+        return _write_pandas_names(case, env)
     z = zoo.BY_TAG[case["tag"]]
     spelling = case["spelling"]
     if spelling == "quoted-upper" and (any("${i:" in s or "identifier(" in s for s in z["stmts"]) or z["tag"].startswith(("ses_set", "ses_unset"))):
